@@ -22,8 +22,11 @@ DEFAULT_CAP = 20
 
 
 def quiet():
+    """Silence Fandango's logging and its exception printing (production mode prints swallowed exceptions)."""
     LOGGER.setLevel(logging.CRITICAL)
     logging.disable(logging.CRITICAL)
+    if not os.environ.get("VERIF_KEEP_STDERR"):
+        sys.stderr = open(os.devnull, "w")
 
 
 def normalise(seed=0):
